@@ -233,6 +233,9 @@ class RaggedArray(IndexableArray, np.lib.mixins.NDArrayOperatorsMixin):
         data = np.array(
             [element for array in array_list for element in array], dtype=dtype
         )  # This can be done faster
+        if dtype is None and data.size == 0 and len(array_list) > 0 and all(hasattr(a, "dtype") for a in array_list):
+            # no element to infer the type from: rows given as typed (empty) arrays keep their element type
+            data = data.astype(np.result_type(*[a.dtype for a in array_list]))
         return data, RaggedShape([len(a) for a in array_list])
 
         shape = RaggedShape([len(a) for a in array_list])
